@@ -4,7 +4,8 @@
 Enumerates the feature power-set of each workspace crate (named features plus optional dependencies,
 read from the crate's Cargo.toml in /repo's working tree) and runs, for every cell,
 
-    cargo check --offline -p <crate> --no-default-features [--features a,b,...] --all-targets
+    cargo check --offline -p <crate> --no-default-features [--features a,b,...]                 (library alone)
+    cargo check --offline -p <crate> --no-default-features [--features a,b,...] --all-targets   (examples, tests)
 
 The compiler is the oracle.  A failing cell is shrunk (greedy feature removal while it still fails) and
 the minimal set becomes the replay file.
@@ -41,17 +42,22 @@ def crate_features(crate):
 
 
 def run_cell(crate, feats, target_dir):
-    cmd = ["cargo", "check", "--offline", "-q", "-p", crate, "--no-default-features", "--all-targets"]
-    if feats:
-        cmd += ["--features", ",".join(feats)]
-    env = dict(os.environ, CARGO_NET_OFFLINE="true", CARGO_TARGET_DIR=target_dir, RUSTFLAGS=os.environ.get("RUSTFLAGS", ""))
-    p = subprocess.run(cmd, cwd=REPO, env=env, capture_output=True, text=True)
-    if p.returncode == 0:
-        return "ok", ""
-    err = p.stderr
-    if "could not compile" in err or "error[E" in err or "error: " in err and "-->" in err:
-        return "fail", err
-    return "infra", err
+    """A cell is checked twice: the library target alone (what a downstream consumer builds - with
+    --all-targets the crate's own dev-dependencies are unified into the feature set and can mask a
+    failure), and with --all-targets (examples, tests)."""
+    for extra in ([], ["--all-targets"]):
+        cmd = ["cargo", "check", "--offline", "-q", "-p", crate, "--no-default-features"] + extra
+        if feats:
+            cmd += ["--features", ",".join(feats)]
+        env = dict(os.environ, CARGO_NET_OFFLINE="true", CARGO_TARGET_DIR=target_dir, RUSTFLAGS=os.environ.get("RUSTFLAGS", ""))
+        p = subprocess.run(cmd, cwd=REPO, env=env, capture_output=True, text=True)
+        if p.returncode == 0:
+            continue
+        err = "$ " + " ".join(cmd) + "\n" + p.stderr
+        if "could not compile" in err or "error[E" in err or "error: " in err and "-->" in err:
+            return "fail", err
+        return "infra", err
+    return "ok", ""
 
 
 def shrink(crate, feats, target_dir):
@@ -174,7 +180,7 @@ def main():
         "coverage": {
             "evaluations": len(results),
             "distinct_nontrivial": distinct_nontrivial,
-            "rule": "cells of the feature power-set (named features + optional dependencies read from each crate's Cargo.toml, verif-hooks excluded); thorough = every cell of every crate, quick = every cell of crates with <= 4 features and, for nexrad-data, {none, all, default, each single, each all-but-one} plus 40 seeded random cells; each cell = cargo check --offline -p <crate> --no-default-features --features <set> --all-targets; non-trivial = a cell that differs from both the empty and the default set",
+            "rule": "cells of the feature power-set (named features + optional dependencies read from each crate's Cargo.toml, verif-hooks excluded); thorough = every cell of every crate, quick = every cell of crates with <= 4 features and, for nexrad-data, {none, all, default, each single, each all-but-one} plus 40 seeded random cells; each cell = cargo check --offline -p <crate> --no-default-features --features <set>, once for the library alone and once with --all-targets; non-trivial = a cell that differs from both the empty and the default set",
             "samples": [{"crate": c, "features": f, "result": s} for c, f, s, e in results[:3]] + [{"crate": c, "features": f, "result": s} for c, f, s, e in results[-2:]],
             "exhaustive": exhaustive,
             "feature_space": space,
